@@ -111,6 +111,7 @@ type upShape struct {
 	Tr      bool   `json:"tr"`
 	Gz      bool   `json:"gz"`
 	Sse     bool   `json:"sse"`
+	Ver     int    `json:"ver"` // origin speaks HTTP/1.0 (10) or HTTP/1.1 (11)
 	Sz      int    `json:"sz"`
 	Hop     bool   `json:"hop"`
 	Cookies bool   `json:"cookies"`
@@ -174,7 +175,11 @@ func (sh *scriptHop) respond(p *peer, connIdx, reqIdx int, req *wireMsg, w io.Wr
 	}()
 	u := s.up
 	var head bytes.Buffer
-	fmt.Fprintf(&head, "HTTP/1.1 %d %s\r\n", u.St, reasons[u.St])
+	minor := 1
+	if u.Ver == 10 {
+		minor = 0
+	}
+	fmt.Fprintf(&head, "HTTP/1.%d %d %s\r\n", minor, u.St, reasons[u.St])
 	fmt.Fprintf(&head, "X-Resp: %s\r\n", s.id)
 	ct := "application/octet-stream"
 	if u.Sse {
@@ -205,8 +210,13 @@ func (sh *scriptHop) respond(p *peer, connIdx, reqIdx int, req *wireMsg, w io.Wr
 			head.WriteString("Trailer: X-Sum\r\n")
 		}
 	case "eof":
-		head.WriteString("Connection: close\r\n")
+		if u.Ver != 10 {
+			head.WriteString("Connection: close\r\n")
+		}
 		closeAfter = true
+	}
+	if u.Ver == 10 {
+		closeAfter = true // a plain HTTP/1.0 origin: no keep-alive
 	}
 	head.WriteString("\r\n")
 	if noBody {
